@@ -22,7 +22,7 @@ from concurrent.futures import ThreadPoolExecutor
 VERIF = os.path.dirname(os.path.dirname(os.path.abspath(__file__)))
 SPECS = os.path.join(VERIF, 'specs')
 EVIDENCE = os.path.join(VERIF, 'evidence')
-REPLAYS = os.path.join(VERIF, 'replays')
+REPLAYS = os.environ.get('VERIF_REPLAYS') or os.path.join(VERIF, 'replays')
 REPO = os.path.abspath(os.environ.get('VERIF_REPO', '/repo'))
 PY = os.environ.get('VERIF_PYTHON', '/venv/bin/python')
 JAR = '/opt/veriftools/tla/tla2tools.jar:/opt/veriftools/tla/CommunityModules-deps.jar'
@@ -290,7 +290,11 @@ def match_finding(pid, signature, findings=None):
         ok = True
         for k, v in fd.get('signature', {}).items():
             got = signature.get(k)
-            if isinstance(v, list) and not isinstance(got, list):
+            if isinstance(v, list) and isinstance(got, list):
+                if not set(map(str, got)) <= set(map(str, v)):
+                    ok = False
+                    break
+            elif isinstance(v, list) and not isinstance(got, list):
                 if got not in v:
                     ok = False
                     break
